@@ -55,20 +55,16 @@ def seed_for(base, i):
 
 # --------------------------------------------------------------------- replay
 def evaluate_record(rec):
-    """-> (clause or None, world)"""
-    if rec.get("check") == "modes":
-        w = run_record(rec, keep_log=True)
-        if w.violation:
-            return w.violation[1], w, w.violation
-        v = runner.mode_equivalence(rec, w)
-        if v:
-            return v["clause"], w, ("C18", v["clause"], v["msg"], v["op"])
-        return None, w, None
+    """-> (clause or None, world, violation tuple or None)"""
     w = run_record(rec, keep_log=True)
     if w.harness:
         return None, w, None
     if w.violation:
         return w.violation[1], w, w.violation
+    if rec.get("check") == "modes":
+        v, w2 = runner.mode_equivalence(rec, w, keep_log=True)
+        if v:
+            return v["clause"], w2, ("C18", v["clause"], v["msg"], v["op"])
     return None, w, None
 
 
@@ -278,7 +274,7 @@ def main():
         tried = 0
         seen_kind = set()
         for v in vs:
-            kind = re.sub(r"\d+", "N", v["msg"])[:80]
+            kind = re.sub(r"\d+", "N", re.sub(r"cachefile_[0-9a-f]+_cachefile", "F", v["msg"]))[:80]
             if kind in seen_kind:
                 continue
             seen_kind.add(kind)
